@@ -115,6 +115,9 @@ def _auto_inline(ctx, view, f, given):
 
 def run(ctx):
     c, p, res = ctx.c, ctx.p, ctx.r
+    # ---- R7 the engines and the pure API never mutate the machine definition, an action's params or the caller's event / snapshot ----
+    shared.definition_is_read_only(ctx, "R7", ("base_interpreter", "interpreter", "sync_interpreter", "helpers"),
+                                   "the second execution of that action / second spawn / second transition() on the same definition behaves differently from the first, and the three engines stop agreeing")
     # ---- R1 twin agreement ----------------------------------------------------------------
     total = 0
     for name, fa, fs, ia, ib in _pairs(ctx):
